@@ -1,4 +1,5 @@
 import Jwt.Ops
+import Jwt.Generated.DigestTables
 import Jwt.Lemmas.StrCmp
 import Jwt.Verify
 import Jwt.Builder
@@ -151,6 +152,32 @@ theorem C12_generate_parametric (e1 e2 : Env) (hjc : e1.jc = e2.jc) (hnow : e1.n
   simp only [generate, hcore]
 
 /-! ### non-vacuity -/
+
+/-- the digest and kind of key operation RFC 7518 §3.1 assigns to each algorithm (`by-key`: EdDSA's
+digest is fixed by the curve of the key) -/
+def rfcDigest : Alg → Option (String × String)
+  | .hs256 => some ("sha256", "mac") | .hs384 => some ("sha384", "mac") | .hs512 => some ("sha512", "mac")
+  | .rs256 => some ("sha256", "rsa") | .rs384 => some ("sha384", "rsa") | .rs512 => some ("sha512", "rsa")
+  | .ps256 => some ("sha256", "pss") | .ps384 => some ("sha384", "pss") | .ps512 => some ("sha512", "pss")
+  | .es256 => some ("sha256", "ec") | .es256k => some ("sha256", "ec") | .es384 => some ("sha384", "ec") | .es512 => some ("sha512", "ec")
+  | .eddsa => some ("by-key", "eddsa")
+  | .none | .inval => none
+
+/-- **Both providers select the same primitive for every algorithm, on the signing and on the verifying
+side** (generated from the two `sign-verify.c`): each of the six entry points' `switch (jwt->alg)` maps
+every algorithm it handles to the digest and the kind of key operation RFC 7518 prescribes, the
+public-key entry points handle exactly the eleven public-key algorithms and the MAC entry points exactly
+HS256/384/512 (in whatever order the cases are written). A digest swapped in one provider, or on one side only, fails here at build time. -/
+def allAlgs : List Alg := [.none, .hs256, .hs384, .hs512, .rs256, .rs384, .rs512, .es256, .es384, .es512, .ps256, .ps384, .ps512, .es256k, .eddsa, .inval]
+
+theorem C12_digests :
+    (∀ t ∈ [Generated.osslsignpemDigests, Generated.osslverifypemDigests, Generated.gtlssignpemDigests, Generated.gtlsverifypemDigests],
+      (∀ r ∈ t, rfcDigest r.1 = some r.2) ∧
+      ∀ a ∈ allAlgs, (a ∈ t.map (·.1)) = (a ∈ [Alg.rs256, .rs384, .rs512, .ps256, .ps384, .ps512, .es256, .es256k, .es384, .es512, .eddsa])) ∧
+    (∀ t ∈ [Generated.osslsignhmacDigests, Generated.gtlssignhmacDigests],
+      (∀ r ∈ t, rfcDigest r.1 = some r.2) ∧ ∀ a ∈ allAlgs, (a ∈ t.map (·.1)) = (a ∈ [Alg.hs256, .hs384, .hs512])) := by
+  decide
+
 example : setOpsByName 0 [103, 110, 117, 116, 108, 115] = (1, 0) := by decide +kernel            -- "gnutls"
 example : setOpsByName 1 [103, 110, 117, 116, 108] = (1, 1) := by decide +kernel                 -- "gnutl": refused, stays
 example : setOpsByName 1 [79, 112, 101, 110, 83, 83, 76] = (1, 1) := by decide +kernel           -- "OpenSSL": refused
